@@ -151,6 +151,41 @@ fn bound_of<'a, K: Key + 'static>(b: &'a BoundS) -> Bound<K::SelfType<'a>> {
 static FLUSH_BYTES: std::sync::atomic::AtomicUsize = std::sync::atomic::AtomicUsize::new(1 << 20);
 fn flush_bytes() -> usize { FLUSH_BYTES.load(std::sync::atomic::Ordering::Relaxed) }
 
+// ------------------------------------------------------------------------------------------------ shape lines (S2)
+// Canonical text of the real tree (Table::verif_shape), shared with ocaml/c18_driver.ml (shape mode):
+//   S <length> <node> <node> ...       nodes in pre-order, `S 0 -` for the empty tree
+//   leaf   L<depth><d|c><allocated>/<used>:<key>=<value length>,...
+//   branch B<depth><d|c><allocated>/<used>:<separator>,...
+// d = uncommitted page, c = committed page.  Keys are printed IN FULL (the model is started from this text), delta
+// encoded against the previous key of the same line: <number of leading bytes shared with it>.<hex of the rest>.
+// (Same layout as c04_util::shape_line, which prints long keys as digests.)
+fn shape_text(s: &redb::verif::VShape) -> String {
+    if s.nodes.is_empty() {
+        return format!("S {} -", s.length);
+    }
+    let mut out = format!("S {}", s.length);
+    let mut prev: Vec<u8> = vec![];
+    let mut key = |k: &Vec<u8>, out: &mut String| {
+        let shared = prev.iter().zip(k.iter()).take_while(|(a, b)| a == b).count();
+        write!(out, "{}.{}", shared, hex(&k[shared..])).unwrap();
+        prev = k.clone();
+    };
+    for n in &s.nodes {
+        write!(out, " {}{}{}{}/{}:", if n.leaf { 'L' } else { 'B' }, n.depth, if n.uncommitted { 'd' } else { 'c' }, n.allocated_len, n.used_len).unwrap();
+        for (i, k) in n.keys.iter().enumerate() {
+            if i > 0 { out.push(','); }
+            key(k, &mut out);
+            if n.leaf { write!(out, "={}", n.value_lens[i]).unwrap(); }
+        }
+    }
+    out
+}
+
+/// what the shape correspondence needs per (program, configuration) run: the model's input (tree before every mutable
+/// cursor session + the session) and the real tree after the session
+#[derive(Default)]
+struct ShapeLog { input: String, output: String, sessions: u64 }
+
 #[derive(Default)]
 struct Markers { max_height: u32, accepted: u64, rejected: u64, long_runs: u64, flush_crossings: u64, dir_switches: u64, removes: u64 }
 
@@ -266,7 +301,7 @@ fn exec_table_op<K: Key + 'static, V: Value + 'static>(t: &mut Table<K, V>, op: 
     }
 }
 
-fn exec<K: Key + 'static, V: Value + 'static>(prog: &CProgram, cfg: &Config, mk: &mut Markers, out: &mut String) {
+fn exec<K: Key + 'static, V: Value + 'static>(prog: &CProgram, cfg: &Config, mk: &mut Markers, out: &mut String, shp: &mut ShapeLog) {
     let def: TableDefinition<K, V> = TableDefinition::new("t");
     let backend = RecBackend::new();
     backend.0.lock().unwrap().record = false;
@@ -275,6 +310,9 @@ fn exec<K: Key + 'static, V: Value + 'static>(prog: &CProgram, cfg: &Config, mk:
     if let Some(rs) = cfg.region_size { builder.verif_set_region_size(rs); }
     if let Some(cs) = cfg.cache_size { builder.set_cache_size(cs); }
     writeln!(out, "C {}", prog.id).unwrap();
+    writeln!(shp.input, "C {} {} {} {}", prog.id, match prog.kt { KType::Bytes => "bytes", KType::U64 => "u64", KType::Str => "str" },
+             match prog.vt { VType::Bytes => "bytes", VType::U64 => "u64" }, cfg.page_size).unwrap();
+    writeln!(shp.output, "C {}", prog.id).unwrap();
     let mut db = builder.create_with_backend(backend.handle()).unwrap();
     for txn in &prog.txns {
         let w = db.begin_write().unwrap();
@@ -285,8 +323,12 @@ fn exec<K: Key + 'static, V: Value + 'static>(prog: &CProgram, cfg: &Config, mk:
                 match st {
                     Step::Table(op) => exec_table_op::<K, V>(&mut t, op, out),
                     Step::Session("W", lower, b, ops, close) => {
+                        writeln!(shp.input, "P {}", &shape_text(&t.verif_shape().unwrap())[2..]).unwrap();
+                        writeln!(shp.input, "{}", session_text("W", *lower, b, ops, *close)).unwrap();
                         let line = run_mut_session::<K, V>(&mut t, *lower, b, ops, *close, mk);
                         writeln!(out, "{line}").unwrap();
+                        writeln!(shp.output, "{}", shape_text(&t.verif_shape().unwrap())).unwrap();
+                        shp.sessions += 1;
                         mk.max_height = mk.max_height.max(t.stats().unwrap().tree_height());
                     }
                     Step::Session(_, lower, b, ops, _) => {
@@ -322,21 +364,23 @@ fn exec<K: Key + 'static, V: Value + 'static>(prog: &CProgram, cfg: &Config, mk:
     }
 }
 
-fn run_prog(prog: &CProgram, cfg: &Config, mk: &mut Markers) -> String {
+fn run_prog(prog: &CProgram, cfg: &Config, mk: &mut Markers, shp: &mut ShapeLog) -> String {
     // the output produced before a panic is kept: the first differing line is then the operation that panicked
     let mut out = String::new();
     let r = catch(|| match (prog.kt, prog.vt) {
-        (KType::Bytes, VType::Bytes) => exec::<&[u8], &[u8]>(prog, cfg, mk, &mut out),
-        (KType::U64, VType::Bytes) => exec::<u64, &[u8]>(prog, cfg, mk, &mut out),
-        (KType::Str, VType::U64) => exec::<&str, u64>(prog, cfg, mk, &mut out),
-        (KType::Str, VType::Bytes) => exec::<&str, &[u8]>(prog, cfg, mk, &mut out),
-        (KType::Bytes, VType::U64) => exec::<&[u8], u64>(prog, cfg, mk, &mut out),
-        (KType::U64, VType::U64) => exec::<u64, u64>(prog, cfg, mk, &mut out),
+        (KType::Bytes, VType::Bytes) => exec::<&[u8], &[u8]>(prog, cfg, mk, &mut out, shp),
+        (KType::U64, VType::Bytes) => exec::<u64, &[u8]>(prog, cfg, mk, &mut out, shp),
+        (KType::Str, VType::U64) => exec::<&str, u64>(prog, cfg, mk, &mut out, shp),
+        (KType::Str, VType::Bytes) => exec::<&str, &[u8]>(prog, cfg, mk, &mut out, shp),
+        (KType::Bytes, VType::U64) => exec::<&[u8], u64>(prog, cfg, mk, &mut out, shp),
+        (KType::U64, VType::U64) => exec::<u64, u64>(prog, cfg, mk, &mut out, shp),
     });
     if let Err(msg) = r {
         if !out.starts_with("C ") { out = format!("C {}\n", prog.id); }
         if !out.ends_with('\n') { out.push('\n'); }
         out.push_str(&format!("PANIC {}\n", msg.replace('\n', " ")));
+        if !shp.output.ends_with('\n') { shp.output.push('\n'); }
+        shp.output.push_str("PANIC\n");
     }
     out
 }
@@ -556,6 +600,7 @@ fn main() {
     let mut cases_f = std::fs::File::create("cases.txt").unwrap();
     let mut progress_f = std::fs::File::create("progress.txt").unwrap();
     let mut outs: BTreeMap<&'static str, String> = BTreeMap::new();
+    let mut shps: BTreeMap<&'static str, ShapeLog> = BTreeMap::new();
     let mut tot = Markers::default();
     let mut shapes: BTreeMap<&'static str, u64> = BTreeMap::new();
     let mut opk: BTreeMap<&'static str, u64> = BTreeMap::new();
@@ -593,7 +638,7 @@ fn main() {
                 let mut mk = Markers::default();
                 writeln!(progress_f, "RUN {} {}", prog.id, cfg.name).unwrap();
                 progress_f.flush().unwrap();
-                o.push_str(&run_prog(&prog, cfg, &mut mk));
+                o.push_str(&run_prog(&prog, cfg, &mut mk, shps.entry(cfg.name).or_default()));
                 runs += 1;
                 if mk.accepted > 0 && mk.rejected > 0 || mk.long_runs > 0 { hit = true; }
                 tot.max_height = tot.max_height.max(mk.max_height);
@@ -607,10 +652,17 @@ fn main() {
     }
     writeln!(progress_f, "DONE").unwrap();
     for (name, o) in &outs { std::fs::write(format!("impl.{name}.txt"), o).unwrap(); }
+    let mut shape_sessions = 0u64;
+    for (name, l) in &shps {
+        std::fs::write(format!("shapein.{name}.txt"), &l.input).unwrap();
+        std::fs::write(format!("shapeimpl.{name}.txt"), &l.output).unwrap();
+        shape_sessions += l.sessions;
+    }
     let mut st = String::new();
     writeln!(st, "programs={} runs={} distinct_nontrivial={}", n, runs, nontrivial).unwrap();
     writeln!(st, "markers=max_height:{},inserts_accepted:{},inserts_rejected:{},runs_of_20_or_more:{},runs_crossing_INSERT_FLUSH_BYTES:{},direction_switches_inside_a_run:{},removals:{}",
         tot.max_height, tot.accepted, tot.rejected, tot.long_runs, tot.flush_crossings, tot.dir_switches, tot.removes).unwrap();
+    writeln!(st, "shape_sessions={}", shape_sessions).unwrap();
     writeln!(st, "opkinds={}", opk.iter().map(|(k, v)| format!("{k}:{v}")).collect::<Vec<_>>().join(",")).unwrap();
     writeln!(st, "shapes={}", shapes.iter().map(|(k, v)| format!("{k}:{v}")).collect::<Vec<_>>().join(",")).unwrap();
     for s in samples { writeln!(st, "sample={s}").unwrap(); }
